@@ -213,6 +213,7 @@ func runC02(c *Ctx) {
 	ruleParserLifetime(c)
 	ruleNoRetryAfterParseError(c, "R02.e")
 	ruleParserStateBalanced(c, "R02.f")
+	ruleOnlyParserReadsConn(c, "R02.g")
 }
 
 // ruleReaderUses: R02.a and R02.b (also used by C01/C11 for the short-read clause).
